@@ -62,7 +62,7 @@ CLAIMS = {
    design="6/C10"),
  "C11": dict(
    text="Contract proof in the SMT theory of strings: formatPath and simpleFmtPath are total (no panic for any byte string, both StrictLastSlash settings) and always return a path in normal form (one leading slash, no second slash, no trailing slash unless strict); the whitespace-only input that used to panic is fixed and kept as a canary mutant.",
-   note=TRUST + "strings.TrimSpace/TrimLeft/TrimRight are assumed contracts (exact for ASCII white space, sound for multi-byte white space). The whole-string equations relating registration and lookup normalisation (L1/L2 in DESIGN.md) are not decided deductively.",
+   note=TRUST + "Whole-string behaviour (a route registered as P is reached by exactly the request paths with the same normal form) is run by the bounded stand-in bounded/normeq (labelled bounded); one known finding (double normalisation inside groups, white space next to a dropped slash). strings.TrimSpace/TrimLeft/TrimRight are assumed contracts (exact for ASCII white space, sound for multi-byte white space). The whole-string equations relating registration and lookup normalisation (L1/L2 in DESIGN.md) are not decided deductively.",
    design="6/C11"),
  "C13": dict(
    text="Contract proof of the registration-side validators: goodInfo accepts only routes with a handler and with every method exactly one of the nine supported names (the prefix-match defect is fixed), Route.Use rejects chains of 63 or more handlers, and formatPath never panics on any input string.",
